@@ -26,6 +26,8 @@ func hostileName(r *Run, w *World, users []string) string {
 		"sub/" + victim, ".tmp/" + victim, "../decoy", "../../../etc/whawty/store0", "/etc/passwd",
 		strings.Repeat("n", 256), strings.Repeat("n", 5000), victim + ".user", victim + ".admin", victim + "\x00", victim + " ",
 		"../sibling/" + victim + "\x00", victim + ".admin/../" + victim,
+		// short once cleaned, although the string is longer than any file name
+		strings.Repeat("x/../", 60) + "../sibling/" + victim, strings.Repeat("x/../", 52) + victim, strings.Repeat("./", 130) + victim, strings.Repeat("x/../", 60) + "../decoy",
 		// letters that case-folding maps onto ASCII (Kelvin sign, long s), full-width and other look-alikes
 		"\u212aevin", "\u017fam", "a\u212a", "bo\u017f", "\uff41lice", "\u0430lice", "alice\u0300", "\u00c5ke", "K\u0131m",
 	}
